@@ -48,7 +48,7 @@ theorem kcDel_succ (hP : KvClosed idx P) {n : Nat} (hq : KcChk idx P n) : KcDel 
   · simp at hr; exact hr ▸ h
   · next sess hf =>
     simp only at hr
-    exact foldE_ind P _ (fun st c st' hst hc => hq st true _ st' hc hst) _ _ _
+    exact foldE_ind P _ (fun st c st' hst hc => hq st _ _ st' hc hst) _ _ _
       (kc_removeSession hP id sess h) hr
 
 theorem kcChk_of (hP : KvClosed idx P) {n : Nat} (hp : ∀ m, n = m + 1 → KcDel idx P m) : KcChk idx P n := by
@@ -405,7 +405,7 @@ theorem kvRelNot_closed (idx : Nat) (sid : String) (s0 : State) : KvClosed idx (
 /-- the state right after the destroyed session's own rows were handled, and the rest of the cascade -/
 theorem deleteSession_unfold {s s' : State} {idx : Nat} {id : String} {sess : Sess}
     (hf : sessFind s id = some sess) (hr : deleteSession s idx id = .ok s') :
-    ∃ n, foldE (fun st c => ensureCheckF n st idx true
+    ∃ n, foldE (fun st c => ensureCheckF n st idx false
               { c with status := critical, output := sessionCheckOutput sess critical })
           (sessionTypedChecks (dropSessionRefs (invalidateKeys
               { s with sessions := terase Sess.pk (lc id) s.sessions, index := idxSet s.index "sessions" idx } idx sess) idx id) sess)
@@ -435,7 +435,7 @@ theorem destroy_delete_rows {s : State} {idx : Nat} {id : String} {sess : Sess}
   obtain ⟨n, hfold⟩ := deleteSession_unfold hf (apply_destroy_ok hok)
   have hid : lc sess.id = lc id := (tfind_some hf).2
   have hP := kvRelNot_closed idx id s
-  refine foldE_ind _ _ (fun st c st' hst hc => (kc_cascade hP n).2 st true _ st' hc hst) _ _ _ ?_ hfold
+  refine foldE_ind _ _ (fun st c st' hst hc => (kc_cascade hP n).2 st _ _ st' hc hst) _ _ _ ?_ hfold
   intro e' he'
   rw [(dropSessionRefs_rest _ idx id).1] at he'
   obtain ⟨e, he, hfrom, hnh⟩ := mem_invalidateKeys_from he'
@@ -450,7 +450,7 @@ theorem destroy_release_rows {s : State} {idx : Nat} {id : String} {sess : Sess}
   have hid : lc sess.id = lc id := (tfind_some hf).2
   have hh' : heldBy sess.id e = true := by rw [heldBy_congr hid]; exact hh
   have hP := survive_closed idx { e with session := "", modify := idx } rfl
-  refine foldE_ind _ _ (fun st c st' hst hc => (kc_cascade hP n).2 st true _ st' hc hst) _ _ _ ?_ hfold
+  refine foldE_ind _ _ (fun st c st' hst hc => (kc_cascade hP n).2 st _ _ st' hc hst) _ _ _ ?_ hfold
   show _ ∈ (dropSessionRefs _ idx id).kvs
   rw [(dropSessionRefs_rest _ idx id).1]
   unfold invalidateKeys
